@@ -138,6 +138,7 @@ pub fn run_history(rng: &mut Rng, stream: &[u8], keep_num: usize, keep_den: usiz
 
 /// `tolerate_errors`: a decoder error ends the receiving part of the history without being a verdict
 pub fn run_history_tol(rng: &mut Rng, stream: &[u8], keep_num: usize, keep_den: usize, tolerate_errors: bool) -> (String, String, String) {
+    let _w = crate::util::watch(stream);
     let waker = Waker::noop();
     let mut cx = Context::from_waker(&waker);
     // chunking: bursts, packets, single bytes
